@@ -1,8 +1,9 @@
 import Uquic.Oracle.Frame
 import Uquic.Model.Ack.Rcv
 import Uquic.Spec.RcvMon
+import Uquic.Spec.RcvSet
 
-open Uquic.Oracle Uquic.Model.Rcv Uquic.Spec.RcvMon
+open Uquic.Oracle Uquic.Model.Rcv Uquic.Spec.RcvMon Uquic.Spec.RcvSet
 
 structure St where
   h : Handler := {}
@@ -10,6 +11,13 @@ structure St where
   trimmed : Bool := false     -- some space ever exceeded the range cap (dup_complete then not judged)
   preBroken : Bool := false   -- IgnorePacketsBelow was called above the largest received number (the connection never does)
   diverged : Bool := false
+  -- the set-based reference (Uquic.Spec.RcvSet), driven by the ops only
+  setI : SetHist := {}
+  setH : SetHist := {}
+  setA : SetHist := {}
+  low1rtt : Int := invalidPN
+
+def ecnNotECT : Nat := Uquic.Gen.Protocol.ECNNon.toNat
 
 def parseLevel : String → Option Level
   | "I" => some .initial | "H" => some .handshake | "Z" => some .zeroRTT | "A" => some .oneRTT | _ => none
@@ -40,6 +48,12 @@ def parseImplAck (w : List String) : Option (Int × List Range) :=
 
 def suffix (h : Handler) : String :=
   s!" a={h.alarm} q={if h.app.ackQueued then 1 else 0}"
+
+def getSet (s : St) : Level → SetHist
+  | .initial => s.setI | .handshake => s.setH | _ => s.setA
+def putSet (s : St) (l : Level) (x : SetHist) : St :=
+  match l with
+  | .initial => { s with setI := x } | .handshake => { s with setH := x } | _ => { s with setA := x }
 
 def getSpace (g : Ghost) : Level → SpaceGhost
   | .initial => g.ini | .handshake => g.hs | _ => g.app
@@ -111,12 +125,39 @@ def step (s : St) (op impl : String) : St × StepOut :=
           if ae && pn ≥ floor && !covers rs pn && (match rs with | r :: _ => pn < r.2 | [] => false) && !implQ then
             fails := fails ++ [("ack_on_gap_fill", "-", s!"pn={pn}")]
         | none => pure ()
+      -- set-based reference: is this number handed to the tracker, and is it new?
+      let registered := match lvl with
+        | .initial | .handshake => !sp.dropped
+        | .zeroRTT => !(s.low1rtt ≠ invalidPN ∧ pn > s.low1rtt)
+        | .oneRTT => true
+      let (set', specNew) := if registered then (getSet s lvl).recv pn else (getSet s lvl, false)
+      if registered && specNew && implHead == "E:bug" then
+        fails := fails ++ [("spec_recv_new", "-", s!"pn={pn} is not in the tracked set but was rejected as old")]
+      if registered && !specNew && implHead == "ok" && !(lvl == .handshake && sp.dropped) then
+        fails := fails ++ [("spec_recv_dup", "-", s!"pn={pn} is in the tracked set (or below the forget threshold) but was accepted as new")]
+      let low1rtt' := if lvl == .oneRTT && (s.low1rtt = invalidPN || pn < s.low1rtt) then pn else s.low1rtt
       let tags := [s!"recv:{model}"] ++
         (if numRanges h' lvl > numRanges s.h lvl then ["recv:newrange"] else
          if numRanges h' lvl < numRanges s.h lvl then ["recv:merge"] else []) ++
         (if h'.app.ackQueued && !s.h.app.ackQueued then ["recv:queued"] else [])
       let trimmed := s.trimmed || numRanges h' lvl ≥ maxNumAckRanges
-      return fin { s with h := h', g := g', trimmed := trimmed } model tags fails
+      return fin (putSet { s with h := h', g := g', trimmed := trimmed, low1rtt := low1rtt' } lvl set') model tags fails
+  | ["fill", l, cnt, start, stp, t] =>
+    match parseLevel l with
+    | none => (s, { model := "bad-op" })
+    | some lvl =>
+      let cnt := natOf cnt; let start := intOf start; let stp := intOf stp; let t := intOf t
+      let (h', bad) := (List.range cnt).foldl (fun (acc : Handler × Bool) j =>
+        let (h1, o) := acc.1.receivedPacket (start + Int.ofNat j * stp) ecnNotECT lvl t false
+        (h1, acc.2 || o != .ok)) (s.h, false)
+      let sp := getSpace s.g lvl
+      let sp' := { sp with R := (List.range cnt).foldl (fun R j =>
+        let p := start + Int.ofNat j * stp
+        if R.contains p then R else p :: R) sp.R }
+      let trimmed := s.trimmed || numRanges h' lvl ≥ maxNumAckRanges
+      let set' := (List.range cnt).foldl (fun (x : SetHist) j => (x.recv (start + Int.ofNat j * stp)).1) (getSet s lvl)
+      let low := if lvl == .oneRTT && cnt > 0 && (s.low1rtt = invalidPN || start < s.low1rtt) then start else s.low1rtt
+      fin (putSet { s with h := h', g := setSpace s.g lvl sp', trimmed := trimmed, low1rtt := low } lvl set') (if bad then "E:bug" else "ok") ["fill"] []
   | ["dup", l, pn] =>
     match parseLevel l with
     | none => (s, { model := "bad-op" })
@@ -133,6 +174,11 @@ def step (s : St) (op impl : String) : St × StepOut :=
       if implHead == "0" && (pn < floor || (sp.R.contains pn &&
             !s.trimmed)) then
         fails := fails ++ [("dup_complete", "-", s!"pn={pn} was received and is within the tracked history")]
+      let specDup := (getSet s lvl).isDup pn
+      if !sp.dropped && implHead == "1" && !specDup then
+        fails := fails ++ [("spec_dup", "-", s!"pn={pn} reported duplicate but is not tracked")]
+      if !sp.dropped && implHead == "0" && specDup then
+        fails := fails ++ [("spec_dup", "-", s!"pn={pn} is tracked (or below the forget threshold) but not reported duplicate")]
       return fin s model [s!"dup:{model}"] fails
   | ["ack", l, now, oiq] =>
     match parseLevel l with
@@ -148,6 +194,8 @@ def step (s : St) (op impl : String) : St × StepOut :=
       let mut g' := s.g
       match parseImplAck iw with
       | some (_, rs) =>
+        if rs != (getSet s lvl).ranges then
+          fails := fails ++ [("spec_ack_ranges", "-", s!"ack={fmtRanges rs} tracked-set runs={fmtRanges (getSet s lvl).ranges}")]
         if !rangesValid rs && !(s.preBroken && rs.isEmpty) then
           fails := fails ++ [("ack_ranges_wf", "-", fmtRanges rs)]
         if !coveredSubset rs sp.R floor then
@@ -156,7 +204,14 @@ def step (s : St) (op impl : String) : St × StepOut :=
         | some m, r :: _ => if !(r.1 ≤ m && m ≤ r.2) && m ≥ floor then
             fails := fails ++ [("ack_includes_largest", "-", s!"max={m} top={r.1}-{r.2}")]
         | _, _ => pure ()
-        let sp' := { sp with lastAck := some rs, unackedAE := sp.unackedAE.filter (fun (p, _) => !covers rs p) }
+        -- a returned ACK covers every pending ack-eliciting packet, unless the range cap
+        -- (MaxNumAckRanges) has dropped its range: that is the code's deliberate DoS bound, and the
+        -- theorems (ack_timely, dup_complete) are stated with the same exception
+        if !s.trimmed then
+          for (p, _) in sp.unackedAE do
+            if p ≥ floor && !covers rs p then
+              fails := fails ++ [("ack_misses_pending", "-", s!"pn={p} not covered by {fmtRanges rs}")]
+        let sp' := { sp with lastAck := some rs, unackedAE := [] }
         g' := setSpace g' lvl sp'
         if isApp then g' := { g' with aeSinceAck := 0 }
       | none =>
@@ -176,7 +231,7 @@ def step (s : St) (op impl : String) : St × StepOut :=
     -- packets below the threshold need no ACK any more
     let g' := { g' with app := { g'.app with unackedAE := g'.app.unackedAE.filter (fun (p, _) => p ≥ g'.forgetBelow) } }
     let pre := s.preBroken || !(s.g.app.R.any (· ≥ pn))
-    fin { s with h := h', g := g', preBroken := pre } "ok" [if pn > s.h.app.ignoreBelow then "ignore:raise" else "ignore:noop"] []
+    fin { s with h := h', g := g', preBroken := pre, setA := s.setA.deleteBelow (if pn ≤ s.h.app.ignoreBelow then s.setA.floor else pn) } "ok" [if pn > s.h.app.ignoreBelow then "ignore:raise" else "ignore:noop"] []
   | ["drop", l] =>
     match parseLevel l with
     | none => (s, { model := "bad-op" })
